@@ -1,11 +1,202 @@
 import SageModel.Proto
+import SageModel.Generated.Consts
+import SageModel.Model.C08
+import SageModel.Drv.C06
+import SageModel.Drv.C09
 
-/-! Driver ops for C08 (stub: no ops yet). -/
+/-! Driver ops for C08.
+
+```
+db8 <mode> <pseed> <nperm> <gen 0|1> <tag:hex>
+    <mc> <min_len> <max_len> <cleave:hex> <0 | 1 restrict-byte> <c_terminal> <semi>
+    <f32 min_mass> <f32 max_mass> <max_var>
+    <nvar> {<key:hex> <nmass> <f32>*} <nstatic> {<key:hex> <f32>}
+    <kinds mask> <min_ion_index> <bucket> <frag 0|1>
+    <nrec> {<accession:hex> <sequence:hex>}
+  | panic
+  | ok <npep> {<decoy> <seq:hex> <n> <f32 mod>*n <0|1 f32 nterm> <0|1 f32 cterm> <f32 mass>
+               <missed_cleavages> <semi_enzymatic> <position 0..3> <nprot> <acc:hex>*}
+       F <nfrag> [frag=1: {<peptide index> <f32 m/z>}*nfrag sorted]
+       perm <orders tried> <orders that differ>  pool <pools tried> <pools that differ>  hash <rebuilds> <that differ>
+```
+Comparison with the model is exact on every field (bit patterns; only `+` in a fixed order is involved).
+Spec verdicts (evaluated on the implementation's reply):
+`bad:fasta_order_dependent`, `bad:thread_dependent`, `bad:run_to_run_nondeterministic` (the implementation
+compared with itself: permuted records, pools of 1..32 threads, rebuilds from a fresh `Parameters` = new HashMap seeds),
+`bad:not_sorted_by_mass`, `bad:duplicate_key`, `bad:proteins_not_sorted_set`, `bad:protein_not_a_source`,
+`bad:source_not_listed`, `bad:decoy_not_conjunction`, `bad:semi_not_conjunction`, `bad:position_not_least`,
+`bad:missed_cleavages_not_a_source` (the naive definition `Sage.C08.specVerdict`; for databases
+too large for the quadratic clauses: sort-based duplicate test and `bad:differs_from_proven_model`, the model
+being proven to satisfy the definition), and in mode 1 only `bad:decoy_protein_not_listed`.
+-/
 namespace Sage.C08
 open Sage.Proto
 
+abbrev F := Float32
+
+def f32b (b : Nat) : F := Float32.ofBits b.toUInt32
+
+structure Request where
+  mode : Nat
+  gen : Bool
+  tag : List UInt8
+  enz : C05.Builder
+  lo : Nat
+  hi : Nat
+  maxVar : Nat
+  vars : List (List Nat × List Nat)
+  statics : List (List Nat × Nat)
+  kinds : Nat
+  minIon : Nat
+  frag : Bool
+  recs : List (List UInt8 × List UInt8)
+
+def request : P Request := do
+  let mode ← nat; let _pseed ← nat; let _nperm ← nat; let gen ← bool; let tag ← bytes
+  let mc ← nat; let minLen ← nat; let maxLen ← nat; let cleave ← bytes
+  let restrict ← opt nat; let cterm ← bool; let semi ← bool
+  let lo ← nat; let hi ← nat; let maxVar ← nat
+  let vars ← C06.varMods; let statics ← C06.staticMods
+  let kinds ← nat; let minIon ← nat; let _bucket ← nat; let frag ← bool
+  let recs ← list (do let a ← bytes; let s ← bytes; pure (a, s))
+  pure { mode, gen, tag
+         enz := { mc := some mc, minLen := some minLen, maxLen := some maxLen, cleaveAt := some cleave,
+                  restrict := restrict.map Nat.toUInt8, cTerminal := some cterm, semi := some semi }
+         lo, hi, maxVar, vars, statics, kinds, minIon, frag, recs }
+
+/-- `>acc d\nSEQ\n` per record, as the harness renders it -/
+def fastaText (recs : List (List UInt8 × List UInt8)) : List UInt8 :=
+  recs.flatMap fun (a, s) => [62] ++ a ++ [32, 100, 10] ++ s ++ [10]
+
+def kindsOf (mask : Nat) : List C09.Kind :=
+  (C09.Kind.all.zipIdx).filterMap fun (k, i) => if (mask >>> i) % 2 == 1 then some k else none
+
+/-- a peptide on the wire -/
+structure WPep where
+  decoy : Bool
+  seq : List Nat
+  mods : List Nat
+  nterm : Option Nat
+  cterm : Option Nat
+  mono : Nat
+  mc : Nat
+  semi : Bool
+  pos : Nat
+  proteins : List (List Nat)
+deriving BEq
+
+def wpep : P WPep := do
+  let decoy ← bool; let seq ← bytes; let mods ← list nat; let nterm ← opt nat; let cterm ← opt nat
+  let mono ← nat; let mc ← nat; let semi ← bool; let pos ← nat; let proteins ← list bytes
+  pure { decoy, seq := nats seq, mods, nterm, cterm, mono, mc, semi, pos, proteins := proteins.map nats }
+
+def posCode : C06.Position → Nat
+  | .nterm => 0 | .cterm => 1 | .full => 2 | .internal => 3
+
+def posOfCode : Nat → C06.Position
+  | 0 => .nterm | 1 => .cterm | 2 => .full | _ => .internal
+
+def toW (p : DbPep F) : WPep :=
+  { decoy := p.decoy, seq := p.core.sequence, mods := p.core.mods.map (·.toBits.toNat)
+    nterm := p.core.nterm.map (·.toBits.toNat), cterm := p.core.cterm.map (·.toBits.toNat)
+    mono := p.core.mono.toBits.toNat, mc := p.mc, semi := p.semi, pos := posCode p.core.position
+    proteins := p.proteins }
+
+def ofW (w : WPep) : DbPep F :=
+  { decoy := w.decoy
+    core := { position := posOfCode w.pos, sequence := w.seq, mods := w.mods.map f32b, nterm := w.nterm.map f32b,
+              cterm := w.cterm.map f32b, mono := f32b w.mono }
+    mc := w.mc, semi := w.semi, proteins := w.proteins }
+
+def hexStr (s : List Nat) : String := hex (s.map Nat.toUInt8)
+
+def renderW (w : WPep) : String :=
+  " ".intercalate
+    [outBool w.decoy, hexStr w.seq, outList toString w.mods, outOpt toString w.nterm, outOpt toString w.cterm,
+     toString w.mono, toString w.mc, outBool w.semi, toString w.pos, outList hexStr w.proteins]
+
+structure ImplReply where
+  peps : List WPep
+  nfrag : Nat
+  frags : List (Nat × Nat)
+  perm : Nat × Nat
+  pool : Nat × Nat
+  hash : Nat × Nat
+
+def kw (s : String) : P Unit := do
+  let t ← tok
+  if t == s then pure () else failure
+
+def implReply (frag : Bool) : P ImplReply := do
+  kw "ok"
+  let peps ← list wpep
+  kw "F"
+  let nfrag ← nat
+  let frags ← if frag then listN (do let i ← nat; let m ← nat; pure (i, m)) nfrag else pure []
+  kw "perm"; let p1 ← nat; let p2 ← nat
+  kw "pool"; let t1 ← nat; let t2 ← nat
+  kw "hash"; let h1 ← nat; let h2 ← nat
+  pure { peps, nfrag, frags, perm := (p1, p2), pool := (t1, t2), hash := (h1, h2) }
+
+def sameEntry (a b : WPep) : Bool :=
+  a.decoy == b.decoy && a.seq == b.seq && a.mods == b.mods && a.nterm == b.nterm && a.cterm == b.cterm &&
+  a.mono == b.mono && a.proteins == b.proteins && a.mc == b.mc && a.semi == b.semi && a.pos == b.pos
+
+/-- duplicate test by sorting (for databases too large for the quadratic clause) -/
+def noDupSorted (out : List (DbPep F)) : Bool :=
+  let s := out.mergeSort keyLe
+  (s.zip (s.drop 1)).all fun (a, b) => !keyEq a b
+
 def handle (op : String) (args impl : List String) : Option Reply :=
   match op with
+  | "db8" => do
+    let r ← run request args
+    let vars : List (C06.Target × F) := (C06.validateVar r.vars).map fun tm => (tm.1, f32b tm.2)
+    let statics : List (C06.Target × F) := (C06.validate r.statics).map fun tm => (tm.1, f32b tm.2)
+    let implR : Option ImplReply := run (implReply r.frag) impl
+    let echo : String := match implR with
+      | some i => s!"perm {i.perm.1} 0 pool {i.pool.1} 0 hash {i.hash.1} 0"
+      | none => "perm 0 0 pool 0 0 hash 0 0"
+    -- the model
+    let built : Option (Cfg F × List (C05.Seq × C05.Seq)) := do
+      let par ← r.enz.toParams
+      let targets ← C05.parse r.tag r.gen (fastaText r.recs)
+      pure ({ par, tag := r.tag, gen := r.gen, h2o := C06.H2Of, table := C06.tableF, vars, statics,
+              maxVar := if r.maxVar == 0 then 1 else r.maxVar, lo := f32b r.lo, hi := f32b r.hi }, targets)
+    let modelDb : Option (Cfg F × List (C05.Seq × C05.Seq) × List (DbPep F)) := do
+      let (cfg, targets) ← built
+      let db ← buildDb cfg targets
+      pure (cfg, targets, db)
+    match modelDb with
+    | none => pure (exact "panic" (" ".intercalate impl) "na")
+    | some (cfg, targets, db) =>
+      let mW : List WPep := db.map toW
+      let frags := (C09.bitsOf (fragmentsOf C09.constsF (kindsOf r.kinds) r.minIon C06.tableF db)).mergeSort C09.lePair
+      let fragText := if r.frag then " " ++ " ".intercalate (frags.map fun f => s!"{f.1} {f.2}") else ""
+      let model := s!"ok {outList renderW mW} F {frags.length}{fragText} {echo}"
+      let spec : String :=
+        match implR with
+        | none => if impl == ["panic"] then "na" else "bad:reply_unreadable"
+        | some i =>
+          if i.perm.2 != 0 then "bad:fasta_order_dependent" else
+          if i.pool.2 != 0 then "bad:thread_dependent" else
+          if i.hash.2 != 0 then "bad:run_to_run_nondeterministic" else
+          let out := i.peps.map ofW
+          if !clSorted out then "bad:not_sorted_by_mass" else
+          if !clProteinsSorted out then "bad:proteins_not_sorted_set" else
+          let cs := contribs cfg targets
+          let small := out.length * cs.length ≤ 4000000
+          let v :=
+            if small then specVerdict cs out
+            else if !noDupSorted out then "bad:duplicate_key"
+            else if out.length != db.length || !((i.peps.zip (db.map toW)).all fun (a, b) => sameEntry a b) then
+              "bad:differs_from_proven_model"
+            else "ok"
+          if v != "ok" then v else
+          if r.mode == 1 && !r.gen && !clAllListed (contribsUnfiltered cfg targets) out then
+            "bad:decoy_protein_not_listed"
+          else "ok"
+      pure (exact model (" ".intercalate impl) spec)
   | _ => none
 
 end Sage.C08
